@@ -307,8 +307,46 @@ def handler_sweep(ctx: Ctx) -> None:
     rep.extra["handler_sweep"] = {"handlers": n, "broad_handlers_not_reraising": swallowing}
 
 
+def seeded_detection(ctx: Ctx, mod) -> None:
+    """The breaking changes written by independent agents for this property (seeded/<id>/patch.diff, each confirmed to
+    survive the test suite) are applied to the in-memory tree: every one that applies must be reported by this property's
+    rules, unless its meta.json records it as inconclusive by design (re-implemented algorithm -> unrecognised)."""
+    import glob
+
+    rep = ctx.rep
+    if any(o.status == "violation" for o in rep.obligations):
+        return
+    jobs, metas = [], {}
+    skipped = 0
+    for d in sorted(glob.glob(os.path.join(VERIF, "seeded", "*"))):
+        try:
+            meta = json.load(open(os.path.join(d, "meta.json")))
+        except (OSError, ValueError):
+            continue
+        if meta.get("property") != ctx.prop:
+            continue
+        over = _refactor_overrides(ctx.p, os.path.join(d, "patch.diff"))
+        if not over:
+            skipped += 1
+            continue
+        metas[meta["id"]] = meta
+        jobs.append((ctx.prop, ctx.p.root, ctx.p.package, over, meta["id"]))
+    reported = inconclusive = 0
+    for label, viol, err in _replay_all(jobs):
+        if viol:
+            reported += 1
+        elif err and not metas[label].get("caught_by_own_property"):
+            inconclusive += 1  # recorded as inconclusive by design in its meta.json
+        else:
+            raise AnalysisError(f"seeded breaking change `{label}` applied to the in-memory tree is not reported by {ctx.prop}"
+                                + (f" (analysis error: {err})" if err else ""))
+    rep.extra["seeded_detection"] = {"seeded_changes_reported": reported, "inconclusive_by_design": inconclusive,
+                                     "not_applicable_to_this_tree": skipped}
+
+
 def run(ctx: Ctx, mod) -> None:
     handler_sweep(ctx)
     sensitivity(ctx, mod)
+    seeded_detection(ctx, mod)
     refactor_silence(ctx, mod)
     mypy_crosscheck(ctx)
